@@ -323,9 +323,10 @@ def gen_bp_script(rng, big=False):
                 flags |= F_DONT_HASH
             elif r < 0.30:
                 flags |= F_IGNORE_SPARSE
-        tail = data[len(data) - len(data) % B:]
-        if flags & F_IGNORE_SPARSE and tail and not any(tail) and not flags & F_DONT_FRAGMENT:
-            flags &= ~F_IGNORE_SPARSE          # an all-zero `nosparse` tail is defect D24 (property C17), kept out of C08's inputs
+        if rng.random() < 0.04 and data and len(data) % B:
+            # an all-zero tail end marked `nosparse` (the former D24 trigger; a fragment block is never sparse since 47f7b3d)
+            data = data[:len(data) - len(data) % B] + bytes(len(data) % B)
+            flags |= F_IGNORE_SPARSE
         chunk = rng.choice([0, 0, 0, 1, 3, B, B + 1])
         files.append((data, flags, chunk))
     return {"B": B, "codec": codec, "workers": workers, "backlog": backlog, "hashbits": hashbits, "pre": pre,
@@ -502,11 +503,13 @@ def check_bp_one(ctx, sc, out, stats, name):
             stats["bp_shared_files"] += 1
         first.setdefault(key, k)
     if not any(fl & (F_DONT_DEDUP | F_DONT_HASH) for _, fl, _ in sc["files"]):
-        tails = {sc["files"][k][0][len(sc["files"][k][0]) - len(sc["files"][k][0]) % B:] for k in range(len(sc["files"])) if has_fragment(sc, k)}
+        # the lookup key is (bytes, DONT_COMPRESS) since fcd11e4: each distinct pair is stored exactly once
+        tails = {(sc["files"][k][0][len(sc["files"][k][0]) - len(sc["files"][k][0]) % B:], sc["files"][k][1] & F_DONT_COMPRESS)
+                 for k in range(len(sc["files"])) if has_fragment(sc, k)}
         stored = sum(len(v) for v in res["fb"].values() if v is not None)
-        if stored != sum(len(t) for t in tails):
-            problems.append(("spec", "fragment blocks hold %d bytes but the distinct tail ends total %d: equal fragments stored twice or lost" % (
-                stored, sum(len(t) for t in tails))))
+        if stored != sum(len(t) for t, _ in tails):
+            problems.append(("spec", "fragment blocks hold %d bytes but the distinct (tail end, dont_compress) pairs total %d: equal fragments stored twice or lost" % (
+                stored, sum(len(t) for t, _ in tails))))
     # (3) block-writer model on the implementation's own call trace
     calls = [t for t in res["events"] if t[0] in ("W",)]
     # the hypothesis `wf` of the block-writer theorems is a fact about the block processor's call stream: check it
@@ -560,6 +563,9 @@ def check_bp_one(ctx, sc, out, stats, name):
         elif t[0] == "T":
             stats["bp_truncates"] += 1
     stats["bp_scripts"] += 1
+    stats["bp_zero_nosparse_tails"] += sum(1 for k in range(len(sc["files"])) if has_fragment(sc, k) and sc["files"][k][1] & F_IGNORE_SPARSE
+                                           and not any(sc["files"][k][0][len(sc["files"][k][0]) - len(sc["files"][k][0]) % B:]))
+    stats["bp_dont_compress_tails"] += sum(1 for k in range(len(sc["files"])) if has_fragment(sc, k) and sc["files"][k][1] & F_DONT_COMPRESS)
     if stats["bp_scripts"] in (5, 300):
         ctx.c08_samples.append({"kind": "bp", "config": {k: sc[k] for k in ("B", "codec", "workers", "backlog", "hashbits")},
                                 "files": len(sc["files"]), "events": [" ".join(t)[:60] for t in res["events"][:10]],
@@ -875,7 +881,7 @@ def run(ctx):
                 "sometimes 4095..9000-byte blocks). bp: files through the real block processor + hash table + thread pool linked with "
                 "xxh32 truncated to 0..8 bits (block size 8..64 and 4096; toy RLE / gzip / none; 1..4 workers; backlog 3..30; 1..40 "
                 "files from <=5 distinct blocks and <=8 tails of <=3 sizes; DONT_FRAGMENT/DONT_DEDUPLICATE/DONT_COMPRESS/DONT_HASH/"
-                "IGNORE_SPARSE). tools: gensquashfs/rdsquashfs/tar2sqfs/sqfs2tar with 0..8-bit checksum, gzip/xz/lz4/zstd, -b 4096.."
+                "IGNORE_SPARSE, incl. all-zero nosparse tails and dont_compress twins of compressible tails). tools: gensquashfs/rdsquashfs/tar2sqfs/sqfs2tar with 0..8-bit checksum, gzip/xz/lz4/zstd, -b 4096.."
                 "131072, -j 1..16. non-trivial = bw script in which a LAST call truncated the output (deduplication hit) + bp script in "
                 "which a (size, checksum) match between different contents was decided by the byte comparison",
         "input_distribution": {"fragment_comparisons_by_place_and_answer": {k[4:]: v for k, v in stats.items() if k.startswith("cmp_")}},
@@ -894,7 +900,7 @@ def run(ctx):
             "exercised for the real ones by the read-back runs)",
             "block-writer theorems assume the FIRST/LAST protocol `wf` of the call stream and blocks < 2^24 bytes; the protocol is checked on every "
             "logged call stream of the real block processor, not proved here (C02 models the front end)",
-            "fragment theorems exclude an all-zero tail end marked nosparse (defect D24, property C17)",
+            "fragment theorems assume non-empty fragments (frontend.c only submits tail ends of size % block_size > 0 bytes)",
             "when a fragment block moves from in flight to disk is an input of the fragment model (all timings are covered by the theorems; the "
             "real timings come from the real pool)"])
 
